@@ -23,17 +23,17 @@ fn base_end(b: &[u8]) -> usize {
 fn uriref_base<const N: usize>() {
     let t = Text::<N>::any();
     let b = t.bytes();
-    assume(tables::t_uri_uriref_valid(b));
+    assume(tables::t_uri_uriref_valid_k(b, N));
     let x = unsafe { UriRef::new_unchecked(b) };
     let e = base_end(b);
     let r = x.base().as_bytes();
     assert!(is_subslice(b, r, 0, e), "C16: base() is not the text through the last '/' of the path");
-    assert!(tables::t_uri_uriref_valid(r), "C16: base() is not a valid URI reference");
+    assert!(tables::t_uri_uriref_valid_k(r, N), "C16: base() is not a valid URI reference");
     let s = split_ref(r);
     assert!(s.query.is_none() && s.fragment.is_none(), "C16: base() has a query or a fragment");
     if let Some(u) = x.as_uri() {
         let ru = u.base().as_bytes();
-        assert!(is_subslice(b, ru, 0, e) && tables::t_uri_uri_valid(ru), "C16: Uri::base()");
+        assert!(is_subslice(b, ru, 0, e) && tables::t_uri_uri_valid_k(ru, N), "C16: Uri::base()");
     }
     cover!(e < b.len() && e > 2, "a file name, query or fragment is cut off");
     cover!(split_ref(b).authority.is_some() && e == b.len(), "base is the whole text");
@@ -49,12 +49,12 @@ pub fn c16_uriref_base_n10() {
 fn iriref_base<const N: usize>() {
     let t = Text::<N>::any();
     let b = t.bytes();
-    assume(tables::t_iri_iriref_valid(b));
+    assume(tables::t_iri_iriref_valid_k(b, N));
     let x = unsafe { IriRef::new_unchecked(as_str(b)) };
     let e = base_end(b);
     let r = x.base().as_bytes();
     assert!(is_subslice(b, r, 0, e), "C16: IriRef::base() is not the text through the last '/' of the path");
-    assert!(tables::t_iri_iriref_valid(r), "C16: IriRef::base() is not a valid IRI reference");
+    assert!(tables::t_iri_iriref_valid_k(r, N), "C16: IriRef::base() is not a valid IRI reference");
     cover!(e < b.len() && e > 2 && b[e] >= 0xC2, "multi-byte file name cut off");
 }
 
@@ -106,7 +106,7 @@ fn path_suffix<const N: usize, const K: usize>() {
                 k += 1;
             }
             let out = s.as_bytes();
-            assert!(tables::t_uri_path_valid(out), "C16: suffix() is not a valid path");
+            assert!(tables::t_uri_path_valid_k(out, N + 3), "C16: suffix() is not a valid path");
             let gl = SegList::of(&split_path(out));
             assert!(lists_equal_mod_shield(a, &rest, out, &gl), "C16: suffix() is not the remaining segments");
             cover!(rest.n >= 2, "two or more remaining segments");
@@ -141,7 +141,7 @@ pub fn c16_path_suffix_rep1_n4() {
 fn uri_suffix<const N: usize>() {
     let t = Text::<N>::any();
     let a = t.bytes();
-    assume(tables::t_uri_uri_valid(a));
+    assume(tables::t_uri_uri_valid_k(a, N));
     let x = unsafe { Uri::new_unchecked(a) };
     let p: &[u8] = b"s:/a";
     let y = unsafe { Uri::new_unchecked(p) };
